@@ -72,7 +72,9 @@ class C08(core.Check):
 
     def pre(self, k):
         return ['', '', '\\LTinput{%s}\n' % self.f3, '\\LTinput{%s}\n' % self.f1, '\\LTinput{%s}\n' % self.f2,
-                '\\usepackage[dvipsnames]{xcolor}\n'][k]
+                '\\usepackage[dvipsnames]{xcolor}\n',
+                # the name of a readable file partly given by a macro
+                '\\newcommand{\\ydefsdir}{%s}\\LTinput{\\ydefsdir/%s}\n' % (os.path.dirname(self.f3), os.path.basename(self.f3))][k]
 
     def cases(self, tier, seed, shard, nshards):
         rnd = core.sub_rng('C08', seed, shard)
@@ -82,7 +84,7 @@ class C08(core.Check):
             ds = rnd.getrandbits(48)
             size = rnd.randint(1, 6)
             lang = rnd.choice(['en', 'en', 'de', 'ru'])
-            pre = rnd.randrange(6)
+            pre = rnd.randrange(7)
             d = self.host(ds, size, lang, pre)
             pts = d.safe_points + [len(d.src)]
             yield dict(docseed=ds, size=size, lang=lang, pre=pre, fault='clean', at=0, fs=0)
